@@ -48,8 +48,14 @@ def main():
     pids = set(a.upper() for a in sys.argv[1:])
     todo = [m for m in MUTANTS if not pids or m["pid"] in pids]
     from concurrent.futures import ThreadPoolExecutor
-    with ThreadPoolExecutor(max_workers=4) as ex:
-        res = list(ex.map(run_one, todo))
+    groups = {}
+    for m in todo:
+        groups.setdefault(m["pid"], []).append(m)   # same property sequentially: replay files are per property
+
+    def run_group(ms):
+        return [run_one(m) for m in ms]
+    with ThreadPoolExecutor(max_workers=3) as ex:
+        res = [r for grp in ex.map(run_group, groups.values()) for r in grp]
     for r in res:
         print("%-5s %-40s %s %s" % (r["pid"], r["name"], r["result"], r.get("lines", [""])[:1]))
     path = os.path.join(VERIF, "selftest", "sensitivity.json")
